@@ -191,8 +191,9 @@ def header_text(rng, m, binary, arith, cov):
     L.append(' %d %d' % (m.nv and r.randint(0, m.nv), m.nv and r.randint(0, m.nv)) + (' %d' % (m.nv and r.randint(0, m.nv)) if both else ''))
     l6 = ' 0 %d' % m.nf
     if binary:
+        fl_ = r.random()
         if arith is not None:
-            l6 += ' %d' % arith + (' 1' if r.random() < 0.7 else '')
+            l6 += ' %d' % arith + (' 1' if fl_ < 0.7 else '')
     else:
         q = r.random()
         l6 += ' 0 1' if q < 0.6 else '' if q < 0.8 else ' 0' if q < 0.9 else ' %d 0' % r.randint(0, 5)
@@ -393,7 +394,8 @@ def gen_valid(rng, T, mode, cov):
     big = mode == 'binswap'
     arith = None
     if binary:
-        arith = 2 if big else r.choice([1, 1, None])
+        a_ = r.choice([1, 1, None])     # drawn in both byte orders so that twins stay in step
+        arith = 2 if big else a_
     hl = header_text(r, m, binary, arith, cov)
     hdr = ('\n'.join(hl) + '\n').encode()
     w = W(r, binary, big)
